@@ -218,7 +218,16 @@ func pathKeyCases(r *rand.Rand, tier string, tr *trace.Buf) {
 				if declared < 0 || declared > 30 || declared%2 != 0 {
 					continue
 				}
-				t := pathKey(r, h, hf, idx, declared, 1+r.Intn(50))
+				var t pathTriple
+				if res := call(func() { t = pathKey(r, h, hf, idx, declared, 1+r.Intn(50)) }); res != "ok" {
+					// the library's own building blocks (validateAuthPath, hMsg, ..) failed on well-formed input while the
+					// triple was assembled: recorded as the outcome of that triple (a genuine triple that is not accepted)
+					var pk0 [67]uint8
+					pk0[0], pk0[1] = uint8(hf), uint8(declared/2)&0x0f
+					e := vEvent{Ev: "case", Class: "path-key-material-failed", W: 16, H: h, BaseHf: hf, Idx: int(idx), SigLen: 2180 + 32*h, B0: int(pk0[0]), B1: int(pk0[1]), Genuine: true, Same16: true, Intact: true, Out: res}
+					tr.Emit(e)
+					continue
+				}
 				emit("path-key", t, true, t.msg, t.sig, t.pk) // the specification decides from (length, descriptor) whether it may verify
 				if declared == h {
 					bad := dup(t.sig)
